@@ -108,7 +108,8 @@ PROPS = {
         "manifest": {"text": "Field-level theorems for any signature scheme S (serialisation of the signed record a parameter): verifyRec_issue + C07_issue_verifies (for EVERY option combination - expiration or none, not-before, nonce, facts, proofs, several capabilities, any caveats - the record VerifySignature rebuilds from an issued token is the record Issue signed, so it verifies), C07_tamper (Ideal S, Binding S, injective serialisation: a token carrying an issued token's signature verifies only if its rebuilt record equals the signed one, only under the same key and only for a verifier whose DID is its issuer), verifyRec_covers (the record determines version, issuer, audience, capabilities, proofs, expiration, facts, nonce, not-before: every field is covered), C07_other_principal, C07_pinned_counterexample (record of the repaired nnc/nbf omission). The full-strength claim is false and kept visible: C07_dagjson_collision(_bytes) (known finding C07/F2). Correspondence with real Ed25519 / RSA / wrapped keys: tokens over every option combination and caveat / fact values of every IPLD kind, verified directly and after archive/extract, then one of 26 single alterations (each field, signature flip / code swap / truncation, other key, other DID, the three collision rewrites) re-encoded through a block round trip; the model predicts each boolean from the rebuilt records.", "design_ref": "5.7", "note": "trusted: Lean kernel; Payload.lean / Ipld.lean (hand-written, field level: DAG-JSON at tree level, byte serialisation assumed injective on trees); Ed25519/RSA idealised in theorems, real in the harness; known findings C07/F2 (link/bytes vs {\"/\":...} collision) and C07/F3 (null values cannot be decoded by bindnode)"},
         "obligations": ob("UcantoModel.Props.C07", "Payload.verifyRec_issue", "Payload.C07_issue_verifies", "Payload.C07_tamper", "Payload.verifyRec_covers", "Payload.C07_other_principal",
                           "Payload.C07_pinned_counterexample", "Payload.C07_dagjson_collision", "Payload.C07_dagjson_collision_bytes", "Payload.toy_binding")
-                       + ob("UcantoModel.Props.WireReadback", "Wire.fieldsOf_tokenVal", "Wire.token_readback", "Wire.tokenBytes_injective", "Wire.sampleToken_wf"),
+                       + ob("UcantoModel.Props.WireReadback", "Wire.fieldsOf_tokenVal", "Wire.token_readback", "Wire.tokenBytes_injective", "Wire.sampleToken_wf")
+                       + ob("UcantoModel.Props.Base64", "Base64.C07_payload_join_injective", "Base64.C07_sig_text_injective", "Base64.rawUrl_roundtrip"),
         "rule": "tokens: key in {12 Ed25519, 2 RSA, 6 wrapped}, 1-3 capabilities with random nested caveats over all IPLD kinds, 0-2 proof links, expiration {none, explicit, default}, optional not-before, nonce, 0-2 facts; alteration kind round robin over 27 kinds. non-trivial: an alteration is applied. distinct: hash of the spec",
         "trusted_base": ["Model/Payload.lean, Model/Ipld.lean (hand-written)"],
     },
@@ -215,7 +216,8 @@ PROPS = {
                        + ob("UcantoModel.Props.WireMessage", "Wire.message_mapping", "Wire.message_execute")
                        + ob("UcantoModel.Lemmas.CanonOrder", "Cbor.sortKV_perm", "Cbor.canon_map_perm")
                        + ob("UcantoModel.Lemmas.CborRoundtrip", "Cbor.decodeTop_encode", "Cbor.encode_injective")
-                       + ob("UcantoModel.Props.WireReadback", "Wire.fieldsOf_tokenVal", "Wire.token_readback", "Wire.tokenBytes_injective", "Wire.sampleToken_wf"),
+                       + ob("UcantoModel.Props.WireReadback", "Wire.fieldsOf_tokenVal", "Wire.token_readback", "Wire.tokenBytes_injective", "Wire.sampleToken_wf")
+                       + ob("UcantoModel.Props.Base64", "Base64.C13_format_parse", "Base64.C13_format_injective", "Base64.castParse_payload_checked", "Base64.rawStd_roundtrip"),
         "mismatch_is_violation": True,
         "rule": WORLD_RULE + "; every proof additionally link-only with probability 1/5; 0-2 attached blocks; batch of 0-3 invocations sharing proofs", "trusted_base": VALIDATOR_TRUSTED,
     },
@@ -227,7 +229,8 @@ PROPS = {
                        + ob("UcantoModel.Model.SigScheme", "SigScheme.toy_ideal")
                        + ob("UcantoModel.Props.C14Key", "DidM.did_key_string_roundtrip", "DidM.did_key_string_shape")
                        + ob("UcantoModel.Lemmas.Base58Lemmas", "Base58.decode_encode", "Base58.ofDigits_digits", "Base58.digits_ofDigits'")
-                       + ob("UcantoModel.Lemmas.VarintLemmas", "Varint.readMf_encode"),
+                       + ob("UcantoModel.Lemmas.VarintLemmas", "Varint.readMf_encode")
+                       + ob("UcantoModel.Props.Base64", "Base64.C18_key_format_parse", "Base64.C18_key_format_injective", "Base64.std_roundtrip"),
         "mismatch_is_violation": True, "exhaustive": True,
         "rule": "exhaustive: all byte strings over {00,01,12,20,7f,80,9d,1a,a1,ed,ff} up to length 4 (5 thorough) through did.Decode and signature Code/Size/Raw; all strings `did:`+w, w over {k,e,y,:,z,1,A,2,w} up to length 4 (6); did:key strings over a base58 subset; realistic DIDs of both key types, web, mailto, unicode, malformed; signature framings; Ed25519 key layouts and corruptions; real-key property checks over all ordered key pairs. non-trivial: non-empty input / distinct keys. distinct: hash of (op,args)",
         "trusted_base": ["hand-written model Did.lean (did.go, signature.go framing, ed25519 key layout), Base58.lean"],
